@@ -89,4 +89,23 @@ theorem sortRows_deterministic (S : Strs) (cfg : List (Bytes × Bool)) (rows row
   simp only [this, Bool.false_eq_true, if_false]
   exact mergeSort_deterministic _ _ _ hp trans total anti
 
+/-- ORDER BY: whenever the keys compare the rows at hand as a total preorder (total and transitive
+    on them), the result is sorted: every earlier row is ≤ every later row. -/
+theorem sortRows_sorted (S : Strs) (cfg : List (Bytes × Bool)) (rows : List Row) (hcfg : cfg ≠ [])
+    (trans : ∀ a ∈ rows, ∀ b ∈ rows, ∀ c ∈ rows, rowLe S cfg a b = true → rowLe S cfg b c = true → rowLe S cfg a c = true)
+    (total : ∀ a ∈ rows, ∀ b ∈ rows, (rowLe S cfg a b || rowLe S cfg b a) = true) :
+    (sortRows S cfg rows).Pairwise fun a b => rowLe S cfg a b = true := by
+  unfold sortRows
+  have : cfg.isEmpty = false := by cases cfg <;> simp_all
+  simp only [this, Bool.false_eq_true, if_false]
+  rw [mergeSort_congr (rowLe S cfg) (ext (rowLe S cfg) rows) rows (fun a ha b hb => ext_agrees _ rows a b ha hb)]
+  have p := List.pairwise_mergeSort (le := ext (rowLe S cfg) rows) (ext_trans _ rows trans) (ext_total _ rows total) rows
+  -- on members the extension is the comparison itself
+  refine List.Pairwise.imp_of_mem ?_ p
+  intro a b ha hb hab
+  have ha' : a ∈ rows := (List.mergeSort_perm rows _).subset ha
+  have hb' : b ∈ rows := (List.mergeSort_perm rows _).subset hb
+  rw [ext_agrees (rowLe S cfg) rows a b ha' hb']
+  exact hab
+
 end BW.Proofs.Determinism
